@@ -434,7 +434,49 @@ def r04_7(chk):
     chk.floor("R04.7", 0, "expected-zero rule with embedded probe")
 
 
+def r04_8(chk):
+    chk.rule("R04.8", "annotations travel with coordinates: when a method hands the receiver's annotation db to a sequence it has just built (`new.annotation_db = self.annotation_db`), that sequence was built from the receiver's view (`self._seq[...]`, a copy of it) or was given an annotation_offset taken from the receiver -- a sequence built from a realised string starts at offset 0 on the plus strand, so on a sliced or reverse-complemented receiver the same database records now denote other residues")
+    n = 0
+    for rel, classes in ((OLD, ("SequenceI", "Sequence", "NucleicAcidSequence")), (NEW, ("Sequence", "NucleicAcidSequenceMixin"))):
+        m = chk.repo.module(rel)
+        for cname in classes:
+            ci = m.classes.get(cname)
+            if ci is None:
+                continue
+            for name, fn in ci.methods.items():
+                if not isinstance(fn, ast.FunctionDef):
+                    continue
+                handed = []
+                for st in walk_no_nested(fn):
+                    if isinstance(st, ast.Assign) and len(st.targets) == 1 and isinstance(st.targets[0], ast.Attribute) and st.targets[0].attr in ("annotation_db", "_annotation_db") and isinstance(st.targets[0].value, ast.Name) and st.targets[0].value.id != "self" and norm(st.value) in ("self.annotation_db", "self._annotation_db"):
+                        handed.append((st.targets[0].value.id, st))
+                    if isinstance(st, ast.Call) and isinstance(st.func, ast.Attribute) and st.func.attr == "replace_annotation_db" and isinstance(st.func.value, ast.Name) and st.func.value.id != "self" and st.args and norm(st.args[0]) in ("self.annotation_db", "self._annotation_db"):
+                        handed.append((st.func.value.id, st))
+                for var, st in handed:
+                    n += 1
+                    defs = [d for d in walk_no_nested(fn) if isinstance(d, ast.Assign) and any(isinstance(t, ast.Name) and t.id == var for t in d.targets) and isinstance(d.value, ast.Call)]
+                    k = key(m, f"{cname}.{name}", f"{var} built with the receiver's coordinates")
+                    if not defs:
+                        chk.unresolved("R04.8", k, m.loc(st), f"cannot see how `{var}` is built")
+                        continue
+                    d = defs[-1]
+                    c = d.value
+                    # arguments that are (or derive from) the receiver's view
+                    from ..defuse import derived_names
+
+                    viewn = derived_names(fn, set(), seed_exprs={"self._seq"})
+                    uses_view = any("self._seq" == norm(x) for a in list(c.args) + [kw.value for kw in c.keywords] for x in ast.walk(a)) or any(isinstance(x, ast.Name) and x.id in viewn for a in list(c.args) + [kw.value for kw in c.keywords] for x in ast.walk(a))
+                    # a view constructed explicitly from a realised string does not count
+                    fresh_view = any(isinstance(x, ast.Call) and call_name(x) in ("SeqView", "new_sequence.SeqView") and not any(kw.arg in ("offset", "seqid") for kw in x.keywords) for dd in defs for x in ast.walk(dd.value)) or any(isinstance(x, ast.Call) and call_name(x) == "SeqView" for tg, v, _ in __import__("c3static.defuse", fromlist=["assignments"]).assignments(fn) for x in ast.walk(v) if any(isinstance(a, ast.Name) and a.id in {t.id for t in tg if isinstance(t, ast.Name)} for a in ast.walk(c)))
+                    off = [kw.value for kw in c.keywords if kw.arg == "annotation_offset"]
+                    has_off = bool(off) and "self" in {x.id for x in ast.walk(off[0]) if isinstance(x, ast.Name)}
+                    good = (uses_view and not fresh_view) or has_off
+                    chk.decide(good, "R04.8", k, m.loc(st), "built from self._seq / given the receiver's offset", f"`{norm(d)[:80]}` builds `{var}` from a realised string (offset 0, plus strand) and `{norm(st)[:60]}` then attaches the receiver's annotation db: on a sliced or reverse-complemented receiver `{name}()` returns a sequence whose features denote other residues (s[5:25].{name if name in ('degap',) else 'degap'}() shows 'AGGCC' for the feature that is 'AGCTT' on s[5:25])")
+    chk.floor("R04.8", 8, "hand-over sites in the two Sequence implementations")
+
+
 def run(chk):
+    r04_8(chk)
     r04_7(chk)
     r04_1(chk)
     r04_6(chk)
